@@ -92,6 +92,67 @@ def _alloc_table(ctx, fa):
     return out
 
 
+def _alloc_region_table(ctx, m, fn):
+    """SoCBusHandler.alloc_region interpreted exactly (lxs/pyconst.py; check_regions_overlap is the repository's own, interpreted
+    too; SoCRegion is modelled as origin/size/size_pow2/cached/linker) on a grid of memory maps: IO regions with aligned and odd
+    origins, existing regions that leave holes of several sizes, power-of-two and odd request sizes, cached and uncached.  What the
+    function returns is compared with the statement of the property, not with a reference allocator: ([(kind, text)], #returned)."""
+    from .. import pyconst
+    from ..pyconst import NS, Native, _log2_int
+    fo = m.method("SoCBusHandler", "check_regions_overlap")
+
+    def region(origin=None, size=None, mode="rw", cached=True, linker=False, decode=True):
+        return NS(origin=origin, size=size, size_pow2=2**_log2_int(size, False), cached=cached, linker=linker, mode=mode, decode=decode)
+    ios = [{"io": (0x80, 0x80)}, {"io0": (0x40, 0x20), "io1": (0xC0, 0x40)}, {"io": (0x44, 0x3c)}, {"io": (0x48, 0x78)}]
+    fills = [[], [(0, 16)], [(0, 16), (16, 16)], [(0, 24)], [(0, 64), (0x80, 0x20)], [(0, 128), (128, 64), (192, 32), (224, 16)],
+             [(0x40, 0x18)], [(0x40, 0x10), (0x58, 8)], [(0x80, 0x60)], [(0x48, 8), (0x60, 0x10)], [(0xC0, 0x20), (0x40, 0x20)]]
+    silent = Native(lambda *a, **k: None)
+    out, n_ret, n_ev = [], 0, 0
+    for io in ios:
+        for fill in fills:
+            for size in (8, 12, 16, 24, 32, 40, 64, 96, 128):
+                for cached in (True, False):
+                    me = NS(regions={f"r{i}": region(o, s) for i, (o, s) in enumerate(fill)},
+                            io_regions={k: region(o, s, cached=False) for k, (o, s) in io.items()},
+                            address_width=8, logger=NS(info=silent, error=silent, warning=silent))
+
+                    def overlap(regions, check_linker=False, me=me):
+                        r = pyconst.call(fo, {"self": me, "regions": regions, "check_linker": check_linker})
+                        if r[0] != "return":
+                            raise pyconst.Unknowable("check_regions_overlap raises")
+                        return r[1]
+                    me["check_regions_overlap"] = Native(overlap)
+                    try:
+                        got = pyconst.call(fn, {"self": me, "size": size, "cached": cached}, consts={"SoCRegion": Native(region)})
+                    except pyconst.Unknowable as ex:
+                        ctx.need(False, f"SoCBusHandler.alloc_region cannot be interpreted on a concrete memory map ({ex})")
+                    n_ev += 1
+                    if got[0] != "return":
+                        continue
+                    n_ret += 1
+                    c = got[1]
+                    what = f"alloc_region(size={size:#x}, cached={cached}) with regions {[(hex(o), hex(s_)) for o, s_ in fill]}, IO regions " \
+                           f"{[(hex(o), hex(s_)) for o, s_ in io.values()]}"
+                    if not isinstance(c, NS) or not all(isinstance(c.get(k), int) for k in ("origin", "size", "size_pow2")):
+                        out.append(("shape", f"{what} returns {c!r}"))
+                        continue
+                    at = f"{what} returns [{c['origin']:#x}, +{c['size']:#x})"
+                    if c["size"] != size or c.get("cached") != cached:
+                        out.append(("shape", f"{at} with size {c['size']:#x} / cached={c.get('cached')}"))
+                    if c["origin"] % c["size_pow2"]:
+                        out.append(("unaligned", f"{at}: not a multiple of {c['size_pow2']:#x}"))
+                    for o, s_ in fill:
+                        p2 = 2**_log2_int(s_, False)
+                        if c["origin"] < o + p2 and o < c["origin"] + c["size_pow2"]:
+                            out.append(("overlap", f"{at}: overlaps the existing region at {o:#x}"))
+                            break
+                    spaces = [(o, o + 2**_log2_int(s_, False)) for o, s_ in io.values()] if not cached else [(0, 2**8)]
+                    if not any(a <= c["origin"] and c["origin"] + c["size"] <= b for a, b in spaces):
+                        out.append(("outside", f"{at}: outside {'every IO region' if not cached else 'the address space'}"))
+    ctx.analysed["paths"] += n_ev
+    return out, n_ret
+
+
 def run(ctx):
     m = ctx.mod(SOC)
     ctx.rule("A1", "commit => validated: on every path a store into self.regions / self.io_regions / self.locs is covered "
@@ -215,68 +276,17 @@ def run(ctx):
     ctx.ob("A1", SOC, "SoCBusHandler.add_region", "every normal exit stored the region", not falls,
            "" if not falls else f"a path returns normally without storing or raising: {falls[0].show()[-160:]}", fn)
 
-    # ================= A1: alloc_region
+    # ================= A1: alloc_region (interpreted on concrete memory maps, see _alloc_region_table)
     fn = m.method("SoCBusHandler", "alloc_region")
-    paths = P.feasible_paths(fn)
-    ctx.analysed["paths"] += len(paths)
-    rets = [p for p in paths if p.end == "return" and p.end_node.value is not None and norm(p.end_node.value) != "None"]
-    ctx.ob("A1", SOC, "SoCBusHandler.alloc_region", "return:present", bool(rets), "alloc_region returns no candidate", fn)
-    bad = None
-    for p in rets:
-        ret = norm(p.end_node.value)
-        # aligned
-        ta = _test_idx(p, lambda t: "origin % size_pow2" in t or "origin & size_pow2 - 1" in t)
-        last_align = None
-        for i, e in enumerate(p.ev):
-            if e[0] == "test" and ("origin % size_pow2" in norm(e[1]) or "origin & size_pow2 - 1" in norm(e[1])):
-                last_align = e
-        if last_align is None or last_align[2] is not False:
-            bad = (p, "candidate returned without the aligned-origin test having failed to trigger")
-            break
-        # loop over all existing regions
-        fl = [e for e in p.ev if e[0] == "stmt" and isinstance(e[1], ast.For) and "self.regions" in norm(e[1].iter)]
-        if not fl:
-            bad = (p, "candidate returned without iterating over self.regions")
-            break
-        if any(e[0] == "loop" and e[2] == "enter" and isinstance(e[1], ast.For) and "self.regions" in norm(e[1].iter) for e in p.ev):
-            to = [e for e in p.ev if e[0] == "test" and "check_regions_overlap" in norm(e[1])]
-            if not to:
-                bad = (p, "loop over self.regions without overlap test")
-                break
-            txt, pol = norm(to[-1][1]), to[-1][2]
-            overlapping = pol if "is not None" in txt else (not pol)
-            if overlapping:
-                bad = (p, "candidate returned although an overlap was detected")
-                break
-        # candidate built from the aligned origin and the requested size
-        cand = None
-        for e in p.ev:
-            if e[0] == "stmt" and isinstance(e[1], ast.Assign) and norm(e[1].targets[0]) == ret and \
-                    isinstance(e[1].value, ast.Call) and norm(e[1].value.func) == "SoCRegion":
-                cand = e[1].value
-        if cand is None:
-            bad = (p, f"returned `{ret}` is not a SoCRegion built on this path")
-            break
-        kw = {k.arg: norm(k.value) for k in cand.keywords}
-        if kw.get("origin") != "origin" or kw.get("size") != "size":
-            bad = (p, f"candidate built with {kw}")
-            break
-    ctx.ob("A1", SOC, "SoCBusHandler.alloc_region", "returned candidate is aligned and checked against all regions",
-           bad is None, "" if bad is None else bad[1], fn)
-    # the overlap test inside the allocator compares candidate against the *allocated* region of the loop
-    txts = [norm(n) for n in ast.walk(fn) if isinstance(n, ast.Call) and norm(n.func).endswith("check_regions_overlap")]
-    ok = bool(txts) and all("candidate" in t and "allocated" in t for t in txts)
-    ctx.ob("A1", SOC, "SoCBusHandler.alloc_region", "overlap test pairs candidate with each allocated region", ok,
-           "" if ok else f"overlap calls: {txts}", fn)
-    # search window bound
-    wh = [n for n in ast.walk(fn) if isinstance(n, ast.While)]
-    ok = bool(wh) and "search_region.origin + search_region.size_pow2" in norm(wh[0].test) and "origin + size" in norm(wh[0].test)
-    ctx.ob("A1", SOC, "SoCBusHandler.alloc_region", "search stays inside the search region", ok,
-           "" if ok else f"while test: {norm(wh[0].test) if wh else '?'}", fn)
-    ok = any("self.io_regions" in norm(e.value) for e in ast.walk(fn) if isinstance(e, ast.Assign) and
-             norm(e.targets[0]) == "search_regions")
-    ctx.ob("A1", SOC, "SoCBusHandler.alloc_region", "uncached allocation searches the IO regions", ok,
-           "" if ok else "search_regions is not taken from self.io_regions for uncached requests", fn)
+    ctx.analysed["functions"].add(f"{SOC}::SoCBusHandler.alloc_region")
+    dev, n_ret = _alloc_region_table(ctx, m, fn)
+    ctx.ob("A1", SOC, "SoCBusHandler.alloc_region", "return:present", n_ret > 0, "alloc_region returns no candidate on any of the memory maps", fn)
+    for kind, role in (("shape", "returned candidate has the requested size and cached flag"),
+                       ("unaligned", "returned candidate is aligned on its decoded (power-of-two) size"),
+                       ("overlap", "returned candidate is disjoint from every existing region (power-of-two windows)"),
+                       ("outside", "returned candidate lies inside the search space: an IO region when uncached, the address space otherwise")):
+        bad = [d for d in dev if d[0] == kind]
+        ctx.ob("A1", SOC, "SoCBusHandler.alloc_region", role, not bad, "" if not bad else f"{bad[0][1]} ({len(bad)} of the memory maps)", fn)
 
     # ================= A1/A3: SoCLocHandler.add / alloc
     fn = m.method("SoCLocHandler", "add")
